@@ -252,6 +252,14 @@ func (p *IdP) userinfo(w http.ResponseWriter, r *http.Request) {
 	p.userinfoLog = append(p.userinfoLog, tok)
 	st, ok := p.tokens[tok]
 	p.mu.Unlock()
+	if st == "slow-401" { // an identity provider that takes its time, and then says no
+		select {
+		case <-time.After(7 * time.Second):
+		case <-r.Context().Done():
+			return
+		}
+		st = "401"
+	}
 	switch {
 	case !ok || st == "401":
 		w.Header().Set("WWW-Authenticate", `Bearer error="invalid_token"`)
